@@ -492,8 +492,13 @@ def edits_rule(ctx, repo, sf):
             src = rnd.randrange(16384, 65536 - ln)
             dst = rnd.choice((rnd.randrange(16384, 65536 - ln), src + rnd.randrange(1, 20) if src + ln + 20 < 65536 else src, max(16384, src - rnd.randrange(1, 20))))
             spec = '%s,%s,%s' % (rint(src), rint(ln), rint(dst))
+            if paged and rnd.random() < 0.3:
+                # a paged move whose source or destination range runs past the end of its bank
+                src = rnd.choice((0xFFF0, 0xBFFA, src))
+                dst = rnd.choice((0x7FF8, 0xFFFC, dst))
+                spec = '%s,%s,%s' % (rint(src), rint(rnd.randrange(10, 40)), rint(dst))
             if paged and rnd.random() < 0.5:
-                spec = '%s,%s,%d:%s' % (rint(src), rint(ln), rnd.randrange(8), rint(dst))
+                spec = '%s,%s,%d:%s' % (spec.split(',')[0], spec.split(',')[1], rnd.randrange(8), spec.split(',')[2])
         else:
             a = rnd.randrange(16384, 65536 - 600)
             spec = '%s,patch.bin' % rint(a)
@@ -532,6 +537,9 @@ def edits_rule(ctx, repo, sf):
                         break
                 else:
                     for b in range(8):
+                        if len(mem.banks[b]) != 16384:
+                            bad = (spec, 'bank %d is %d bytes long after the edit (a RAM bank is 16384 bytes)' % (b, len(mem.banks[b])))
+                            break
                         if list(mem.banks[b]) != ref.banks[b]:
                             i = next(i for i in range(16384) if mem.banks[b][i] != ref.banks[b][i])
                             bad = (spec, 'bank %d offset %d holds %d, expected %d (bank %d is paged in at 0xC000)' % (b, i, mem.banks[b][i], ref.banks[b][i], ref.page))
